@@ -850,7 +850,7 @@ func (g *c14gen) gen(t xty, d int) *xnode {
 		case 1:
 			return xb(pick(r, []string{">", ">=", "<", "<="}), sub(num), sub(pick(r, []xty{tInt, tFlt})))
 		case 2:
-			return xb(pick(r, []string{"=", "!="}), sub(tInt), sub(tInt))
+			return xb(pick(r, []string{"=", "!="}), sub(num), sub(pick(r, []xty{tInt, tFlt})))
 		case 3:
 			return xb(pick(r, []string{"&", "|", "and", "or"}), sub(tBool), sub(tBool))
 		case 4:
@@ -1319,12 +1319,6 @@ func knownShape(s *xstmt) string {
 	}
 	var walk func(n *xnode)
 	walk = func(n *xnode) {
-		if n.k == xBin {
-			l, r := n.kids[0], n.kids[1]
-			if (n.op == "=" || n.op == "!=") && (mayBeFloat(l) || mayBeFloat(r)) && numeric(l) && numeric(r) && found == "" {
-				found = "float-equality"
-			}
-		}
 		if n.k == xAccess && numberList(n.kids[0]) && n.kids[1].k == xNum && found == "" {
 			found = "number-list-element-as-text"
 		}
@@ -1433,8 +1427,6 @@ func staticKind(n *xnode) string {
 	return ""
 }
 
-func numeric(n *xnode) bool { return staticKind(n) == "num" }
-
 // element kind of a list-valued right side of IN
 func elemKind(n *xnode) string {
 	switch n.k {
@@ -1453,25 +1445,6 @@ func elemKind(n *xnode) string {
 	return ""
 }
 
-func mayBeFloat(n *xnode) bool {
-	switch n.k {
-	case xName:
-		if d, ok := c14AliasDefs[n.s]; ok && d.k != xName {
-			return mayBeFloat(d)
-		}
-	case xFloat:
-		return true
-	case xCall:
-		return n.s == "float" || n.s == "cosine_distance" || n.s == "l2_distance"
-	case xBin:
-		switch n.op {
-		case "+", "-", "*", "/":
-			return mayBeFloat(n.kids[0]) || mayBeFloat(n.kids[1])
-		}
-	}
-	return false
-}
-
 func numberList(n *xnode) bool {
 	if n.k == xName {
 		if d, ok := c14AliasDefs[n.s]; ok && d.k != xName {
@@ -1488,15 +1461,8 @@ func numberList(n *xnode) bool {
 	return false
 }
 
-var c14KnownSig = map[string]string{
-	"float-equality": "C14/float-equality-fails-at-execution",
-}
-
 // c14KnownCase: shapes on which the typing verdict is not applied.
 //
-//	float-equality              the one known finding: reported under its own signature, and
-//	                            only if it shows exactly as recorded (accepted, then an
-//	                            operand-type error at execution)
 //	function-parameter-type     parameter TYPES of functions are not among the faults the
 //	                            property lists: neither required to be rejected nor judged
 //	number-list-element-as-text, in-list-element-kind
@@ -1504,16 +1470,14 @@ var c14KnownSig = map[string]string{
 //	                            like JSON field access, which the property excepts
 //
 // The twin comparison (accept / position / tree) still runs for all of them (mode 1).
+// (= / != with a float operand was the known finding C14/float-equality-fails-at-execution
+// until the executor was repaired; those statements are ordinary judged cases now.)
 func c14KnownCase(e *emitter, s *xstmt, shape string) {
-	idx, o, rp := c14Case(e, s, "not-judged", shape, "", 1)
+	idx, _, _ := c14Case(e, s, "not-judged", shape, "", 1)
 	if idx < 0 {
 		return
 	}
 	e.count("not_judged=" + shape)
-	if shape == "float-equality" && o.cls == 0 && o.typeErr != "" {
-		midx := e.add("Case (SRemove []) 2 0 0 0 None false", rp, false)
-		e.fail(midx, "accepted statement fails at execution with an operand-type error: = / != with a float operand", c14KnownSig[shape], rp)
-	}
 }
 
 func c14Known(e *emitter) {
@@ -1527,9 +1491,14 @@ func c14Known(e *emitter) {
 		c14Classify(e, where(xb(op, xval(), xval())), "grid", "same-field-comparison")
 	}
 	for _, op := range []string{"=", "!="} {
-		c14KnownCase(e, where(xb(op, xcall("float", xval()), xf("1.5"))), "float-equality")
-		c14KnownCase(e, where(xb(op, xcall("int", xval()), xf("2.0"))), "float-equality")
-		c14KnownCase(e, where(xb(op, xf("1.5"), xf("1.5"))), "float-equality")
+		// = / != with a float operand on either side (the repaired finding
+		// C14/float-equality-fails-at-execution): judged like every other statement
+		c14Classify(e, where(xb(op, xcall("float", xval()), xf("1.5"))), "grid", "float-equality")
+		c14Classify(e, where(xb(op, xf("1.5"), xcall("float", xval()))), "grid", "float-equality")
+		c14Classify(e, where(xb(op, xcall("int", xval()), xf("2.0"))), "grid", "float-equality")
+		c14Classify(e, where(xb(op, xcall("float", xval()), xcall("int", xval()))), "grid", "float-equality")
+		c14Classify(e, where(xb(op, xf("1.5"), xf("1.5"))), "grid", "float-equality")
+		c14Classify(e, where(xb(op, xb("*", xcall("int", xval()), xf("0.5")), xf("2.25"))), "grid", "float-equality")
 	}
 	for _, l := range []string{"list", "int_list", "float_list"} {
 		c14KnownCase(e, where(xb("=", xacc(xcall(l, xn("1"), xn("2")), xn("0")), xs("1"))), "number-list-element-as-text")
